@@ -52,33 +52,22 @@ Theorem merge_onesided_example :
 Proof. exact onesided_nonvacuous. Qed.
 Print Assumptions merge_onesided_example.
 
-(* ==== BEGIN block tied to the source fact chunks_guard (finding: empty-sequence-root-unchanged-asserts-no-merge-chunks) ====
-   On the current source the identity law FAILS for an empty list / empty string at the root.
-   After the fix (guard `base or any(split_diffs)`) replace the statement and proof below by:
-     merge_id_empty_seq : forall O cfg St H, decide O cfg St H (JArr []) [] [] = Ok []
-     exact (fun O cfg St H => decide_id_empty_fixed O cfg St H entry_eq_strict conflict_assert_strict). *)
-Theorem merge_id_empty_seq_refuted : forall O cfg St H,
-  decide O cfg St H (JArr []) [] [] = Err AssertionError.
-Proof. exact (fun O cfg St H => decide_id_refuted O cfg St H entry_eq_strict conflict_assert_strict). Qed.
-Print Assumptions merge_id_empty_seq_refuted.
-(* ==== END block ==== *)
+(* ---- The two theorems below follow the generated source facts either way (no edit needed after a repair).
+   On the current source (chunks_guard = GuardListTruthy, entry_eq_strict = false) they are REFUTATIONS:
+   - identity fails for an unchanged empty list / empty string at the root: decide (JArr []) [] [] = Err AssertionError
+     (finding empty-sequence-root-unchanged-asserts-no-merge-chunks);
+   - symmetry fails for base {a:0}, a:=1 on one side, a:=true on the other: conflict-free both ways, merged {a:1} vs {a:true}
+     (finding symmetry-merged-differs-by-json-type-only).
+   After the fixes in notes/C05-fix-1.diff / C05-fix-2.diff the same theorems state the repaired behaviour
+   (Ok [] resp. a conflict in both orders); see empty_seq_statement / symmetry_witness_statement in MergeProofs.v. *)
+Theorem merge_id_empty_seq_refuted_or_repaired : forall O cfg St H,
+  empty_seq_statement chunks_guard (decide O cfg St H (JArr []) [] []).
+Proof. exact (fun O cfg St H => decide_empty_seq_by_fact O cfg St H chunks_guard entry_eq_strict conflict_assert_strict). Qed.
+Print Assumptions merge_id_empty_seq_refuted_or_repaired.
 
-(* ==== BEGIN block tied to the source facts entry_eq_strict / conflict_assert_strict
-        (finding: symmetry-merged-differs-by-json-type-only) ====
-   On the current source the symmetry clause FAILS: {a:0} with a:=1 on one side and a:=true on the other merges
-   without conflict to {a:1} or {a:true} depending on which side is called local.
-   After the fix (strict_equals in generic.py AND in the asserts of decisions.py) replace the statement and proof by:
-     merge_symmetric_example : forall O cfg, (statement of symmetry_example_strict with the two `true` written as
-                                              entry_eq_strict conflict_assert_strict)
-     exact symmetry_example_strict. *)
-Theorem merge_symmetric_refuted : forall O cfg,
-  let base := JObj [(ka, JInt 0)] in
-  let dl := [DReplace (KS ka) (JInt 1)] in
-  let dr := [DReplace (KS ka) (JBool true)] in
-  exists d1 d2 m1 m2,
-    decide_merge_with_diff O cfg no_strategies no_hooks GuardListTruthy entry_eq_strict conflict_assert_strict base dl dr = Ok d1 /\ no_conf d1 /\
-    decide_merge_with_diff O cfg no_strategies no_hooks GuardListTruthy entry_eq_strict conflict_assert_strict base dr dl = Ok d2 /\ no_conf d2 /\
-    apply_decisions base d1 = Ok m1 /\ apply_decisions base d2 = Ok m2 /\ m1 <> m2.
-Proof. exact symmetry_refuted_pyeq. Qed.
-Print Assumptions merge_symmetric_refuted.
-(* ==== END block ==== *)
+Theorem merge_symmetric_refuted_or_repaired : forall O cfg,
+  symmetry_witness_statement entry_eq_strict conflict_assert_strict
+    (decide_merge_with_diff O cfg no_strategies no_hooks GuardListTruthy entry_eq_strict conflict_assert_strict sym_base sym_dl sym_dr)
+    (decide_merge_with_diff O cfg no_strategies no_hooks GuardListTruthy entry_eq_strict conflict_assert_strict sym_base sym_dr sym_dl).
+Proof. exact (fun O cfg => symmetry_witness_by_fact O cfg entry_eq_strict conflict_assert_strict). Qed.
+Print Assumptions merge_symmetric_refuted_or_repaired.
